@@ -800,7 +800,7 @@ class Referable(HasExtension, metaclass=abc.ABCMeta):
                  ancestor
         """
         referable: Referable = self
-        relative_path: List[NameType] = [self.id_short]
+        relative_path: List[NameType] = [self._relative_path_segment()]
         while referable is not None:
             if referable.source != "":
                 relative_path.reverse()
@@ -808,10 +808,21 @@ class Referable(HasExtension, metaclass=abc.ABCMeta):
             if referable.parent:
                 assert isinstance(referable.parent, Referable)
                 referable = referable.parent
-                relative_path.append(referable.id_short)
+                relative_path.append(referable._relative_path_segment())
                 continue
             break
         return None, None
+
+    def _relative_path_segment(self) -> Optional[NameType]:
+        """
+        The name under which :meth:`~.UniqueIdShortNamespace.get_referable` of the parent finds this object: the
+        id_short, or the position for children of a :class:`~basyx.aas.model.submodel.SubmodelElementList` (their
+        generated id_short is not resolvable)
+        """
+        from .submodel import SubmodelElementList
+        if isinstance(self.parent, SubmodelElementList):
+            return str(self.parent.value.index(self))  # type: ignore
+        return self.id_short
 
     def update_from(self, other: "Referable", update_source: bool = False):
         """
@@ -842,7 +853,7 @@ class Referable(HasExtension, metaclass=abc.ABCMeta):
         ancestors. If there is no source, this function will do nothing.
         """
         current_ancestor = self.parent
-        relative_path: List[NameType] = [self.id_short]
+        relative_path: List[NameType] = [self._relative_path_segment()]
         # Commit to all ancestors with sources
         while current_ancestor:
             assert isinstance(current_ancestor, Referable)
@@ -850,7 +861,7 @@ class Referable(HasExtension, metaclass=abc.ABCMeta):
                 backends.get_backend(current_ancestor.source).commit_object(committed_object=self,
                                                                             store_object=current_ancestor,
                                                                             relative_path=list(relative_path))
-            relative_path.insert(0, current_ancestor.id_short)
+            relative_path.insert(0, current_ancestor._relative_path_segment())
             current_ancestor = current_ancestor.parent
         # Commit to own source and check if there are children with sources to commit to
         self._direct_source_commit()
